@@ -111,7 +111,7 @@ def props_of(finding, trace, sc):
     if base == "foreign":
         return {"C19", "C13", "C08"}
     if base == "orphan":
-        return {"C01", "C08", "C13", "C14"}
+        return {"C01", "C08", "C13", "C14", "C19"}
     if base == "read":
         return {"C20"}
     if base == "work":
